@@ -1133,27 +1133,27 @@ fn decorator_markup(decorators: &Vec<Decorator>) -> Markup {
                 Decorator::Url(url) => {
                     m::decorator("@url")
                         + m::operator("(")
-                        + m::string(url.clone())
+                        + url.pretty_print()
                         + m::operator(")")
                 }
                 Decorator::Name(name) => {
                     m::decorator("@name")
                         + m::operator("(")
-                        + m::string(name.clone())
+                        + name.pretty_print()
                         + m::operator(")")
                 }
                 Decorator::Description(description) => {
                     m::decorator("@description")
                         + m::operator("(")
-                        + m::string(description.clone())
+                        + description.pretty_print()
                         + m::operator(")")
                 }
                 Decorator::Example(example_code, example_description) => {
                     m::decorator("@example")
                         + m::operator("(")
-                        + m::string(example_code.clone())
+                        + example_code.pretty_print()
                         + if let Some(example_description) = example_description {
-                            m::operator(", ") + m::string(example_description.clone())
+                            m::operator(", ") + example_description.pretty_print()
                         } else {
                             m::empty()
                         }
